@@ -1,4 +1,10 @@
-"""Region predicates of known findings (complements of the `_partial` hypotheses)."""
+"""Region predicates of the evalprog slice (C03) — none at present.
+
+The three regions this slice used to define (`c03_pattern_occurrence_threshold`, `c03_pattern_first_n_empty`,
+`c03_metric_empty_tuple`) described defects that were repaired in the library (commits 84ce008, e3a7cc5, 564d09a); their
+known_findings.json entries are now `status: "fixed"` (a fixed entry suppresses nothing, its witness must pass), so no
+predicate is referenced any more.
+"""
 REGIONS = {}
 
 
@@ -7,44 +13,3 @@ def region(name):
         REGIONS[name] = fn
         return fn
     return deco
-
-
-# ---- C03 ------------------------------------------------------------------------------------------------
-# pattern.evaluate assigns kwargs["thresh"]; occurrence_FPR's parameter is `thres` (Lean: routes_pattern_partial).
-C03_OCC_KEYS = ("F_occ.5", "P_occ.5", "R_occ.5", "F_occ.75", "P_occ.75", "R_occ.75")
-C03_FIRSTN_KEYS = ("FFP", "FFTP_est")
-
-
-@region("c03_pattern_occurrence_threshold")
-def c03_pattern_occurrence_threshold(inp, what=""):
-    """pattern.evaluate inputs on which the ONLY deviation from the documented bundle is in the occurrence entries"""
-    if inp.get("task") != "pattern":
-        return False
-    import warnings
-    from props import c03
-    with warnings.catch_warnings():
-        warnings.simplefilter("ignore")
-        return c03.check_evaluate(inp) is not None and c03.check_evaluate(inp, mask=C03_OCC_KEYS) is None
-
-
-@region("c03_pattern_first_n_empty")
-def c03_pattern_first_n_empty(inp, what=""):
-    """pattern.evaluate with no reference or no estimated pattern: first_n_* return (0., 0., 0.) (Lean: arity_pattern_partial);
-    nothing else may deviate"""
-    if inp.get("task") != "pattern":
-        return False
-    d = inp.get("data") or {}
-    if d.get("ref") and d.get("est"):
-        return False
-    import warnings
-    from props import c03
-    with warnings.catch_warnings():
-        warnings.simplefilter("ignore")
-        return c03.check_evaluate(inp, mask=C03_FIRSTN_KEYS) is None
-
-
-@region("c03_metric_empty_tuple")
-def c03_metric_empty_tuple(inp, what=""):
-    """direct call of segment.rand_index / segment.ari / pattern.first_n_* on empty annotations (Lean: arity_*_partial)"""
-    return bool(inp.get("empty")) and inp.get("fn") in (
-        "segment.rand_index", "segment.ari", "pattern.first_n_three_layer_P", "pattern.first_n_target_proportion_R")
